@@ -107,4 +107,72 @@ def run(chk, ctx):
             evals = tuple(canon(a[0]) for bb, nm, a in pi.calls() if nm == "expr::Expr::eval")
             rows.add(evals)
         chk.require(rows == {("args[0]", "args[1]"), ("args[0]", "args[2]"), ("args[0]",)}, "CNT", "CNT:ite:only-selected-branch-evaluated", "no evaluation (hence no draw) of the unselected branch", "ite evaluation sets: %s" % sorted(rows))
+    one_context_rule(chk, P)
     chk.not_decided = ["distribution and values of the draws; the numeric range contract of gen_range for bounds up to 2^62 (library, trusted)"]
+
+
+CTOR_CALLERS = {
+    EC + "with_seed": [EC + "new"],
+    EC + "new": ["<eval_context::EvalContext as std::default::Default>::default", EC + "new_with_outputs"],
+    EC + "new_with_outputs": ["data_row_iterator::DataRowIterator::try_new"],
+}
+
+
+def _fn_params(ty):
+    """Parameter types of a `fn(..) -> ..` type string (top-level split)."""
+    i = ty.find("fn(")
+    if i < 0:
+        return []
+    depth, start, out = 0, i + 3, []
+    for j in range(i + 3, len(ty)):
+        ch = ty[j]
+        if ch in "(<[":
+            depth += 1
+        elif ch in ")>]":
+            if depth == 0:
+                out.append(ty[start:j].strip())
+                break
+            depth -= 1
+        elif ch == "," and depth == 0:
+            out.append(ty[start:j].strip())
+            start = j + 1
+    return [x for x in out if x]
+
+
+def one_context_rule(chk, P):
+    """One generator per run: the iterator's context is created once (in try_new) and every evaluation, direct or through
+    the function table, is handed that same context — the function's own context parameter, or the iterator's `ctx` field.
+    (A virtual signal evaluated in a context of its own would draw from another generator, which resetRandom does not restart.)"""
+    for ctor, want in sorted(CTOR_CALLERS.items()):
+        callers = sorted(set(b.name for b, bb, nm in P.callers(lambda n, c=ctor: n == c)))
+        chk.require(callers == sorted(want), "WHO", "WHO:context-constructed-once-per-iterator:%s" % ctor.split("::")[-1], "called only from %s" % want, "%s is called from %s" % (ctor, callers))
+    lits = [cb.name for (cb, bb, i, st) in P.constructors("eval_context::EvalContext") if not cb.derived]
+    chk.require(lits == [EC + "with_seed"], "WHO", "WHO:context-literal-only-in-with_seed", "", "EvalContext literals in %s" % lits)
+    n, bad = 0, []
+    for b in P.f.hand_bodies():
+        if b.name in (EC + "new_with_outputs",):
+            continue   # the constructor fills the context it is creating
+        own = set()
+        holder = b
+        while holder is not None:   # a closure reads its parent's context parameter through a capture of the same name
+            for i, l in enumerate(holder.locals[1:1 + holder.arg_count]):
+                if re.match(r"^&('\w+ )?(mut )?eval_context::EvalContext$", l["ty"]):
+                    own.add(i)
+            holder = P.body(holder.parent) if holder.parent else None
+        for bb, t in b.calls():
+            fty = t["func"].get("ty", "") if isinstance(t.get("func"), dict) else ""
+            params = _fn_params(fty)
+            idx = [i for i, pty in enumerate(params) if re.match(r"^&('\w+ )?(mut )?eval_context::EvalContext$", pty)]
+            if not idx:
+                continue
+            args = [canon(x) for x in P.call_arg_terms(b, bb)]
+            for i in idx:
+                n += 1
+                a = args[i] if i < len(args) else None
+                if a in ("ctx", "self") and own:
+                    continue
+                if a == "self.ctx" and b.name.startswith(("data_row_iterator::DataRowIterator::", "<data_row_iterator::DataRowIterator<T> as")):
+                    continue
+                bad.append((b.name, callee_name(t)[0], a))
+    chk.require(not bad, "ORG", "ORG:one-context:every-evaluation-gets-the-run's-context", "%d context arguments: each is the caller's own context parameter or the iterator's ctx field" % n, "a context other than the run's is handed on at %s" % bad[:4])
+    chk.floor("ORG", "context arguments", n, 30)
